@@ -9,11 +9,11 @@ use serde::{Deserialize, Serialize};
 use serde_json::json;
 
 use super::c13::capacity_of;
-use crate::cachex::{apply, is_item_name, item_file_name, key_dir_name, key_of, list_files, open, run_batch, Op, OpOutcome, B64};
+use crate::cachex::{is_item_name, item_file_name, key_dir_name, key_of, list_files, open, run_batch, Op, OpOutcome, B64};
 use crate::engine::{idx, journal, Case, Ctx, Sm64};
 use base64::Engine;
 
-pub const RULE: &str = "per key a virtual xorb (chunk i of key k is a pure function of (k, i)); histories of put / get / re-open / damage over <= 4 keys with overlapping, nested and adjacent chunk ranges and capacities from 'fits two items' to ample. Damage is applied directly before a re-open (file deletion also while open): burst of <= 32 flipped bits at any offset of a cache file, truncation, extension, deletion of file / key directory / prefix directory, junk files and directories at root / prefix / key level with random, too-short, base64-decodable and cache-item-shaped names and random content, rename to a junk name, swap of two items' names. Concurrent stream: the same operations from 2-3 threads under the schedule controller. Histories run in child processes with a case journal. Oracle: initialize / put / get never panic; every get is a miss, an error, or a hit whose data, offsets and range equal the slice of the key's virtual xorb. non-trivial = a hit on a strict sub-range of a stored range, or a hit after a re-open that followed >= 1 damage operation; distinct by fingerprint of the generated history";
+pub const RULE: &str = "per key a virtual xorb (chunk i of key k is a pure function of (k, i)); histories of put / get / re-open / damage over <= 4 keys with overlapping, nested and adjacent chunk ranges and capacities from 'fits two items' to ample. Damage is applied directly before a re-open (file deletion also while open): burst of <= 32 flipped bits at any offset of a cache file, truncation, extension, deletion of file / key directory / prefix directory, junk files and directories at root / prefix / key level with random, too-short, base64-decodable and cache-item-shaped names and random content, rename to a junk name, swap of two items' names. Stream 'forged': additionally renames that keep an item's length and checksum fields but claim another chunk range - the format cannot tell such an entry from a genuine one, so after a forge hits are only counted, but initialize / put / get must still not panic. Concurrent stream: the same operations from 2-3 threads under the schedule controller. Histories run in child processes with a case journal. Oracle: initialize / put / get never panic; every get is a miss, an error, or a hit whose data, offsets and range equal the slice of the key's virtual xorb. non-trivial = a hit on a strict sub-range of a stored range, or a hit after a re-open that followed >= 1 damage operation; distinct by fingerprint of the generated history";
 
 pub const ASSUMPTIONS: &[&str] = &[
     "forged entries are outside the fault model: a rename or planted file that keeps a consistent (length, CRC) identity while changing range or key directory cannot be told from a genuine entry by any reader of this on-disk format",
@@ -33,6 +33,9 @@ pub enum Damage {
     Junk { level: u8, is_dir: bool, name_kind: u8, seed: u64, content: u8 },
     RenameToJunk { file: u16, seed: u64 },
     SwapNames { a: u16, b: u16 },
+    /// rename an item to a name with the same length and checksum fields but another chunk range
+    /// (forged entry: its content can no longer be judged, but it must not cause a panic)
+    ForgeRange { file: u16, start_delta: i8, end_delta: i8 },
 }
 
 #[derive(Clone, Debug, Serialize, Deserialize)]
@@ -77,10 +80,15 @@ fn damage_strategy() -> impl Strategy<Value = Damage> {
     ]
 }
 
-fn step_strategy(with_batches: bool) -> BoxedStrategy<Step> {
+fn forge_strategy() -> impl Strategy<Value = Damage> {
+    (any::<u16>(), -3i8..=3, -3i8..=6).prop_map(|(file, start_delta, end_delta)| Damage::ForgeRange { file, start_delta, end_delta })
+}
+
+fn step_strategy(with_batches: bool, forge: bool) -> BoxedStrategy<Step> {
+    let dmg = if forge { prop_oneof![2 => forge_strategy(), 1 => damage_strategy()].boxed() } else { damage_strategy().boxed() };
     let base = prop_oneof![
         14 => op_strategy().prop_map(Step::Op),
-        3 => proptest::collection::vec(damage_strategy(), 1..4).prop_map(Step::DamageReopen),
+        3 => proptest::collection::vec(dmg, 1..4).prop_map(Step::DamageReopen),
         1 => Just(Step::Reopen),
         1 => any::<u16>().prop_map(|file| Step::DeleteWhileOpen { file }),
     ];
@@ -97,7 +105,11 @@ fn step_strategy(with_batches: bool) -> BoxedStrategy<Step> {
 }
 
 fn case_strategy(with_batches: bool) -> impl Strategy<Value = C12Case> {
-    (0u8..3, any::<u16>(), proptest::collection::vec(step_strategy(with_batches), 3..30)).prop_map(|(cap_kind, cap_mag, steps)| C12Case { cap_kind, cap_mag, steps })
+    (0u8..3, any::<u16>(), proptest::collection::vec(step_strategy(with_batches, false), 3..30)).prop_map(|(cap_kind, cap_mag, steps)| C12Case { cap_kind, cap_mag, steps })
+}
+
+fn forged_case_strategy() -> impl Strategy<Value = C12Case> {
+    (0u8..3, any::<u16>(), proptest::collection::vec(step_strategy(false, true), 3..30)).prop_map(|(cap_kind, cap_mag, steps)| C12Case { cap_kind, cap_mag, steps })
 }
 
 fn junk_name(kind: u8, seed: u64) -> String {
@@ -231,6 +243,25 @@ fn apply_damage(root: &Path, d: &Damage) -> &'static str {
             }
             "rename-junk"
         },
+        Damage::ForgeRange { file, start_delta, end_delta } => {
+            if let Some(p) = pick(*file) {
+                let name = p.file_name().unwrap().to_string_lossy().to_string();
+                if let Ok(raw) = B64.decode(name.as_bytes()) {
+                    if raw.len() == 20 {
+                        let s0 = u32::from_le_bytes(raw[0..4].try_into().unwrap()) as i64;
+                        let e0 = u32::from_le_bytes(raw[4..8].try_into().unwrap()) as i64;
+                        let len = u64::from_le_bytes(raw[8..16].try_into().unwrap());
+                        let crc = u32::from_le_bytes(raw[16..20].try_into().unwrap());
+                        let s1 = (s0 + *start_delta as i64).max(0);
+                        let e1 = (e0 + *end_delta as i64).max(s1 + 1);
+                        if (s1, e1) != (s0, e0) {
+                            let _ = std::fs::rename(&p, p.parent().unwrap().join(item_file_name(s1 as u32, e1 as u32, len, crc)));
+                        }
+                    }
+                }
+            }
+            "forge-range"
+        },
         Damage::SwapNames { a, b } => {
             if let (Some(pa), Some(pb)) = (pick(*a), pick(*b)) {
                 if pa != pb {
@@ -257,10 +288,12 @@ fn oracle(c: &C12Case, info: &mut Case) -> Result<(), String> {
     let mut reopened_after_damage = false;
     let mut nontrivial = false;
     let mut hits = 0;
+    // once an entry was forged, hits are counted but their content is not judged (see Damage::ForgeRange)
+    let mut forged = false;
     for (si, st) in c.steps.iter().enumerate() {
         match st {
             Step::Op(op) => {
-                let out = apply(&cache, op, None).map_err(|e| format!("{e} (step {si})"))?;
+                let out = crate::cachex::apply_ex(&cache, op, None, !forged).map_err(|e| format!("{e} (step {si})"))?;
                 let (k, a, b) = op.range();
                 match out {
                     OpOutcome::PutOk => stored.entry(k).or_default().push((a, b)),
@@ -283,6 +316,9 @@ fn oracle(c: &C12Case, info: &mut Case) -> Result<(), String> {
                 for d in ds {
                     let l = apply_damage(&root, d);
                     info.label(format!("damage:{l}"));
+                    if matches!(d, Damage::ForgeRange { .. }) {
+                        forged = true;
+                    }
                 }
                 damaged_since_reopen = true;
                 cache = open(&root, capacity).map_err(|e| format!("[sig:c12-initialize-error] re-open after damage {:?} failed: {e}", ds))?;
@@ -325,12 +361,15 @@ fn oracle(c: &C12Case, info: &mut Case) -> Result<(), String> {
 pub fn run(ctx: &Ctx) {
     let n_seq = ctx.tier.pick(6_000, 200_000);
     let n_conc = ctx.tier.pick(2_000, 60_000);
+    let n_forged = ctx.tier.pick(3_000, 60_000);
     if ctx.is_worker || ctx.replay.is_some() {
         ctx.explore("sequential", n_seq, 1, || case_strategy(false), oracle);
         ctx.explore("concurrent", n_conc, 1, || case_strategy(true), oracle);
+        ctx.explore("forged", n_forged, 1, forged_case_strategy, oracle);
     } else {
         let env = BTreeMap::new();
         ctx.explore_workers("sequential", n_seq, 16, &env, Duration::from_secs(ctx.tier.pick(600, 7200)));
         ctx.explore_workers("concurrent", n_conc, 16, &env, Duration::from_secs(ctx.tier.pick(600, 7200)));
+        ctx.explore_workers("forged", n_forged, 16, &env, Duration::from_secs(ctx.tier.pick(600, 7200)));
     }
 }
